@@ -829,3 +829,305 @@ def best_root_py(R, d):
             if best is None or len(r['root'].split('/')) >= len(best.split('/')):
                 best = r['root']
     return best
+
+# ===================================================================== full histories: deploy / rollback / bootstrap / evolve restore
+
+import copy
+
+def list_snapshot_ids(sb):
+    d = os.path.join(sb.aphome, 'state', 'snapshots')
+    if not os.path.isdir(d):
+        return []
+    ids = [x[:-5] for x in os.listdir(d) if x.endswith('.json')]
+    return sorted(ids, key=lambda s: int(s))
+
+def load_snapshot(sb, sid):
+    return json.load(open(os.path.join(sb.aphome, 'state', 'snapshots', sid + '.json')))
+
+class HistState:
+    """what the harness remembers about a history (for the C06 / C15 oracles)"""
+    def __init__(self):
+        self.snaps = []        # per ordinal: dict(kind, flt, disk_after, config, adopted:set, touched:set(path)->target, sid)
+        self.owned = {}        # path -> target for files agentpack wrote and has not deleted
+        self.events = []       # (ordinal or None, kind)
+
+def run_hist_stream(ctx, nhist, depth, props, weights, stream='full_hist'):
+    rng = ctx.rng
+    cases = []
+    kinds = [k for k, wgt in weights.items() for _ in range(wgt)]
+    for h in range(nhist):
+        sb = Sandbox(ctx.prop.lower() + 'f'); sb.git_init_project()
+        try:
+            cw = CfgWorld(sb, rng)
+            if not cw.opts['write_user_skills'] and rng.random() < 0.7:
+                cw.opts['write_user_skills'] = True
+            cw.write()
+            ids = Ids(); base = sb.home
+            for _ in range(rng.randrange(0, 2)):
+                user_edit(rng, cw)
+            initial = read_tree(base); prev = initial
+            steps = []; recs = []; hs = HistState()
+            for st in range(depth):
+                kind = rng.choice(kinds) if st > 0 else 'deploy'
+                sids = list_snapshot_ids(sb)
+                if kind == 'rollback' and not sids:
+                    kind = 'deploy'
+                tags = ['op:' + kind]
+                if kind == 'deploy':
+                    if st > 0 and rng.random() < 0.6:
+                        tags.append('cfg:' + cw.edit_config()); cw.write()
+                    if rng.random() < 0.35:
+                        tags.append('user:' + user_edit(rng, cw))
+                elif rng.random() < 0.3:
+                    tags.append('user:' + user_edit(rng, cw))
+                before = read_tree(base)
+                steps.append('(HEdit %s)' % c_edits(prev, before, ids))
+                rec = {'stream': stream, 'history': h, 'step': st, 'op': kind, 'tags': tags,
+                       'config': {'opts': dict(cw.opts), 'claude': cw.claude,
+                                  'modules': [{k: (v if k != 'files' else {a: b.hex() for a, b in v.items()}) for k, v in m.items()} for m in cw.modules]},
+                       'before': {p: b.hex() for p, b in before.items()}}
+                stop = False
+                if kind == 'deploy':
+                    flt = rng.choice([None, None, None, 'codex'] + (['claude_code'] if cw.claude else []))
+                    adopt = rng.random() < 0.4
+                    entry = rng.choice(['cli_json', 'cli_json', 'cli_human_yes', 'mcp', 'tui'])
+                    lm = latest_managed_of(sb, base)
+                    D = relD(cw.desired(flt), base); R = relR(cw.roots(flt), base)
+                    plan, code, extra = run_deploy_step(sb, cw, entry, adopt, flt)
+                    after = read_tree(base)
+                    rec.update({'entry': entry, 'adopt': adopt, 'target': flt, 'outcome': code})
+                    if plan is None or isinstance(code, str) or code is None:
+                        ctx.notes.append('%s history %d step %d: deploy not judged (%s)' % (stream, h, st, str(code)[:80]))
+                        if before != after:
+                            ctx.violation('a failing deploy changed target files', rec)
+                        break
+                    for c in plan:
+                        c['path'] = norm_rel(c['path'][len(base):]) if c['path'].startswith(base) else c['path']
+                    rec['plan'] = [(c['target'], c['op'], c.get('update_kind'), c['path']) for c in plan]
+                    for prop, what in oracle_step(props, before, after, D, R, flt, adopt, entry, plan, code, ids, base, lm):
+                        ctx.violation(what, rec)
+                    stn, conf = STYLE[entry]
+                    uni = hist_universe([before, after], [D], [R])
+                    steps.append('(HDeploy %d %s %s %s %s %s %s %d %s)' % (stn, cq.cbool(conf), cq.cbool(adopt), cq.copt(flt, cq.cstr), c_roots(R),
+                                 c_desired(D, ids), c_obs_plan(plan, lambda p: p), code, c_obs_after(uni, after, ids)))
+                    if code == 0:
+                        touched = {c['path']: c['target'] for c in plan}
+                        adopted = {c['path'] for c in plan if c.get('update_kind') == 'adopt_update'}
+                        for c in plan:
+                            if c['op'] == 'delete': hs.owned.pop(c['path'], None)
+                        for d in D:     # written now, or found byte-identical while deploying
+                            br = best_root_py(R, d)
+                            if br is not None:
+                                hs.owned[d['path']] = {'target': d['target'], 'root': br, 'kind': 'deploy'}
+                            else:
+                                hs.owned.pop(d['path'], None)
+                        hs.snaps.append({'kind': 'deploy', 'flt': flt, 'disk_after': after, 'config': copy.deepcopy((cw.opts, cw.claude, cw.modules)),
+                                         'adopted': adopted, 'touched': touched, 'D': D, 'R': R})
+                    ctx.count(stream, key=('deploy', entry, adopt, flt, code, tuple(sorted({c['op'] for c in plan}))), nontrivial=len(plan) > 0,
+                              tags=tags + ['outcome:%s' % code])
+                elif kind == 'bootstrap':
+                    rc, pdoc, _, _ = sb.cli_json(['bootstrap', '--scope', 'user', '--dry-run'])
+                    rc, doc, out, err = sb.cli_json(['bootstrap', '--scope', 'user', '--yes'])
+                    after = read_tree(base)
+                    if not doc or not doc.get('ok'):
+                        ctx.notes.append('%s history %d step %d: bootstrap not judged (%s)' % (stream, h, st, out[:120]))
+                        if before != after:
+                            ctx.violation('a failing bootstrap changed target files', rec)
+                        break
+                    plan = doc['data'].get('changes', [])
+                    for c in plan:
+                        c['path'] = norm_rel(c['path'][len(base):]) if c['path'].startswith(base) else c['path']
+                    rec['plan'] = [(c['target'], c['op'], c.get('update_kind'), c['path']) for c in plan]
+                    new_sids = [x for x in list_snapshot_ids(sb) if x not in sids]
+                    R = [{'target': 'codex', 'root': (cw.codex_home + '/skills')[len(base):], 'scan_extras': True}]
+                    if cw.claude:
+                        R.append({'target': 'claude_code', 'root': cw.claude_cmds[len(base):], 'scan_extras': True})
+                    if new_sids:
+                        sn = load_snapshot(sb, new_sids[-1])
+                        Dsha = [(f['target'], f['path'][len(base):], f['sha256']) for f in sn['managed_files']]
+                        hs.last_bootstrap_D = Dsha
+                    Dsha = getattr(hs, 'last_bootstrap_D', None)
+                    if Dsha is None:
+                        # nothing applied and never seen: desired = files reported by the dry run (all creates)
+                        Dsha = [(c['target'], c['path'], c['after_sha256']) for c in (pdoc or {}).get('data', {}).get('changes', []) if c.get('after_sha256')]
+                        Dsha = [(t, norm_rel(p[len(base):]) if p.startswith(base) else p, s_) for t, p, s_ in Dsha]
+                    cD = cq.clist(['(DF %s %s %d)' % (cq.cstr(t), cq.cstr(p), ids.of_sha(s_)) for t, p, s_ in Dsha])
+                    uni = hist_universe([before, after], [[{'path': p} for _, p, _ in Dsha]], [R])
+                    steps.append('(HBootstrap %s %s %s %s)' % (c_roots(R), cD, c_obs_plan(plan, lambda p: p), c_obs_after(uni, after, ids)))
+                    if new_sids:
+                        for t, p, _ in Dsha:
+                            br = best_root_py(R, {'target': t, 'path': p})
+                            if br is not None:
+                                hs.owned[p] = {'target': t, 'root': br, 'kind': 'bootstrap'}
+                        hs.snaps.append({'kind': 'bootstrap', 'flt': 'bootstrap', 'disk_after': after, 'config': copy.deepcopy((cw.opts, cw.claude, cw.modules)),
+                                         'adopted': {c['path'] for c in plan if c.get('update_kind') == 'adopt_update'},
+                                         'touched': {c['path']: c['target'] for c in plan}, 'D': [{'target': t, 'path': p} for t, p, _ in Dsha], 'R': R})
+                    ctx.count(stream, key=('bootstrap', len(plan)), nontrivial=len(plan) > 0, tags=tags)
+                elif kind == 'rollback':
+                    choice = rng.random()
+                    if choice < 0.8:
+                        ordn = rng.randrange(len(sids)); sid = sids[ordn]
+                    else:
+                        ordn = len(sids) + 3; sid = '12345'
+                    rc, doc, out, err = sb.cli_json(['rollback', '--to', sid, '--yes'])
+                    after = read_tree(base)
+                    ok = bool(doc and doc.get('ok'))
+                    rec.update({'to_ordinal': ordn, 'ok': ok})
+                    uni = hist_universe([before, after], [], [])
+                    steps.append('(HRollback %d %s %s)' % (ordn, cq.cbool(ok), c_obs_after(uni, after, ids)))
+                    tgt_is_rb = ordn < len(hs.snaps) and hs.snaps[ordn]['kind'] == 'rollback'
+                    if not ok and before != after:
+                        ctx.violation('a rejected rollback wrote to the target roots', rec)
+                    if ok and (ordn >= len(hs.snaps) or tgt_is_rb):
+                        ctx.violation('rollback accepted a rollback record / unknown id as target', rec)
+                    if ok:
+                        for vio in oracle_rollback(ctx, props, hs, ordn, before, after, sb, base, rec):
+                            pass
+                        S = hs.snaps[ordn]
+                        hs.snaps.append({'kind': 'rollback', 'flt': S['flt'], 'disk_after': after, 'config': S['config'], 'adopted': set(), 'touched': {},
+                                         'D': S['D'], 'R': S['R'], 'to': ordn})
+                        # ledger: what the snapshot lists is (re)written, what the head listed beyond it is deleted
+                        for p in set(before) | set(after):
+                            if before.get(p) != after.get(p) and not is_manifest_name(os.path.basename(p)):
+                                if p in after:
+                                    d0 = next((d for d in S['D'] if d['path'] == p), None)
+                                    br = best_root_py(S['R'], d0) if d0 else None
+                                    if br is not None:
+                                        hs.owned[p] = {'target': d0['target'], 'root': br, 'kind': 'rollback'}
+                                else: hs.owned.pop(p, None)
+                    ctx.count(stream, key=('rollback', ok, 'rb' if tgt_is_rb else ('unknown' if ordn >= len(sids) else 'snap')), nontrivial=ok, tags=tags + ['rollback_ok:%s' % ok])
+                else:   # evolve restore
+                    D = relD(cw.desired(None), base)
+                    rc, doc, out, err = sb.cli_json(['evolve', 'restore', '--yes'])
+                    after = read_tree(base)
+                    if doc is None or (not doc.get('ok') and doc['errors'][0]['code'] not in ('E_CONFIRM_REQUIRED',)):
+                        ctx.notes.append('%s history %d step %d: evolve restore not judged (%s)' % (stream, h, st, out[:160]))
+                        if before != after:
+                            ctx.violation('a failing evolve restore changed target files', rec)
+                        break
+                    for p in set(before) | set(after):
+                        if before.get(p) != after.get(p):
+                            if p in before:
+                                ctx.violation('evolve restore modified or removed an existing file: %s' % p, rec) if 'C01' in props else None
+                            else:
+                                d0 = next((d for d in D if d['path'] == p), None)
+                                br = best_root_py(relR(cw.roots(None), base), d0) if d0 else None
+                                if br is not None:
+                                    hs.owned[p] = {'target': d0['target'], 'root': br, 'kind': 'restore'}
+                    uni = hist_universe([before, after], [D], [])
+                    steps.append('(HRestore %s %s)' % (c_desired(D, ids), c_obs_after(uni, after, ids)))
+                    ctx.count(stream, key=('restore', len([p for p in after if p not in before])), nontrivial=after != before, tags=tags)
+                if 'C15' in props:
+                    oracle_ledger(ctx, hs, cw, after, base, ids, rec)
+                prev = after; recs.append(rec)
+                if h < 1 and st < 3:
+                    ctx.sample({'stream': stream, 'op': kind, 'tags': tags, 'plan': rec.get('plan', [])[:5], 'outcome': rec.get('outcome', rec.get('ok'))})
+            if steps:
+                cases.append((cq.cpair(c_disk(initial, ids), cq.clist(steps)), {'stream': stream, 'history': h, 'steps': recs}))
+        finally:
+            sb.close()
+    failing = ctx.corr(stream, HEADER, 'check_hist', 'hist_case', cases, shard_chars=40000)
+    for c in failing:
+        ctx.violation('model and implementation disagree on a history of deploy/bootstrap/rollback/restore (plan / outcome / disk)', c, no_input=True)
+
+def oracle_rollback(ctx, props, hs, ordn, before, after, sb, base, rec):
+    """C06: every path agentpack touched in a deployment after S has the content/absence it had right after S."""
+    if 'C06' not in props:
+        return []
+    S = hs.snaps[ordn]
+    later = hs.snaps[ordn + 1:]
+    touched = {}
+    adopted = set()
+    for sn in later:
+        touched.update(sn['touched']); adopted |= sn['adopted']
+    # the head at rollback time (replay)
+    head = None
+    for i, sn in enumerate(hs.snaps):
+        if sn['kind'] in ('deploy', 'bootstrap'): head = i
+        elif sn['kind'] == 'rollback': head = sn['to']
+    H = hs.snaps[head] if head is not None else S
+    s_paths = {d['path'] for d in S['D']}
+    out = []
+    for p, t in sorted(touched.items()):
+        want = S['disk_after'].get(p); got = after.get(p)
+        if want == got:
+            continue
+        if is_manifest_name(os.path.basename(p)):
+            continue   # manifests judged below
+        cls = None
+        if p in adopted and p not in s_paths:
+            cls = 'K6b'
+        elif S['flt'] is not None and t != S['flt']:
+            cls = 'K6a'
+        elif H['flt'] is not None and t != H['flt']:
+            cls = 'K6a'
+        elif any(sn['flt'] is not None for sn in later) and p not in s_paths and p not in {d['path'] for d in H['D']}:
+            cls = 'K6a'
+        what = 'after rollback %s differs from its state right after the snapshot (%s)' % (p, 'absent then' if want is None else ('missing now' if got is None else 'other bytes'))
+        r2 = dict(rec, path=p, cls=cls)
+        if cls and ctx.is_known(cls):
+            ctx.known_finding(cls, KNOWN_TEXT[cls])
+        else:
+            ctx.violation(what, r2)
+        out.append(p)
+    # manifests: those S wrote hold S's version again; manifests first written after S left behind = K6c
+    for p in set(before) | set(after):
+        if not is_manifest_name(os.path.basename(p)):
+            continue
+        want = S['disk_after'].get(p); got = after.get(p)
+        if want is None and got is not None and any(p == r['root'] + '/' + mf_name(r['target']) for sn in later for r in sn['R']):
+            if ctx.is_known('K6c'):
+                ctx.known_finding('K6c', KNOWN_TEXT['K6c'])
+            else:
+                ctx.violation('after rollback a manifest first written after the snapshot is left behind: %s' % p, dict(rec, path=p, cls='K6c'))
+    return out
+
+KNOWN_TEXT = {
+    'K6a': 'rollback across target-filtered deploys / bootstraps: files of targets the chosen or the head snapshot does not cover are deleted or left behind',
+    'K6b': 'rollback after an adopt: the adopted user file is deleted instead of restored to its pre-adopt content',
+    'K6c': 'rollback leaves behind a manifest that was first written after the chosen snapshot',
+    'K15a': 'bootstrap and deploy sharing a root rewrite the manifest from their own desired state only: files written by the other command drop out of the manifest',
+    'K15c': 'evolve restore writes a missing desired file without recording it in the manifest',
+}
+
+def oracle_ledger(ctx, hs, cw, after, base, ids, rec):
+    """C15: a file agentpack wrote into a root and has not deleted is listed in that root's manifest;
+    conversely a manifest never lists a file agentpack neither wrote nor found identical."""
+    kind = rec.get('op')
+    before = {p: bytes.fromhex(h) for p, h in rec['before'].items()}
+    hs.last_writer = getattr(hs, 'last_writer', {})
+    for p in set(before) | set(after):
+        if before.get(p) != after.get(p) and is_manifest_name(os.path.basename(p)):
+            hs.last_writer[p] = kind
+    if any(tg.startswith('user:manifest') for tg in rec.get('tags', [])):
+        hs.tamper_seen = True
+    if getattr(hs, 'tamper_seen', False):
+        return      # the user rewrote/removed a manifest in this history: the records are no longer agentpack's alone
+    for p, o in sorted(hs.owned.items()):
+        if p not in after:
+            continue
+        root = {'target': o['target'], 'root': o['root'], 'scan_extras': False}
+        if (o['target'], p) in accepted_entries(after, [root], ids):
+            continue
+        mp = o['root'] + '/' + mf_name(o['target'])
+        lw = hs.last_writer.get(mp)
+        cls = None
+        if o['kind'] == 'restore':
+            cls = 'K15c'
+        elif lw in ('bootstrap', 'deploy') and lw != o['kind']:
+            cls = 'K15a'
+        r2 = dict(rec, path=p, cls=cls, manifest_last_writer=lw, file_writer=o['kind'])
+        if cls and ctx.is_known(cls):
+            ctx.known_finding(cls, KNOWN_TEXT[cls])
+        else:
+            ctx.violation('a file agentpack wrote and has not deleted is not listed in its root\'s manifest: %s' % p, r2)
+    roots_all = relR(cw.roots(None), base)
+    for t, p in sorted(accepted_entries(after, roots_all, ids)):
+        if p in after and p not in hs.owned:
+            ctx.violation('a manifest lists a file agentpack neither wrote nor found identical: %s' % p, dict(rec, path=p))
+
+def hs_manifest_tampered(hs, rec):
+    t = getattr(hs, 'tamper_seen', False)
+    if any(tg.startswith('user:manifest') for tg in rec.get('tags', [])):
+        hs.tamper_seen = True; t = True
+    return t
